@@ -2301,6 +2301,14 @@ def _fold(op, a, b):
     """Fold integer arithmetic on literals (keeps counters readable)."""
     if is_c(a) and is_c(b) and type(a[1]) is int and type(b[1]) is int and op in ('+', '-', '*'):
         return C({'+': a[1] + b[1], '-': a[1] - b[1], '*': a[1] * b[1]}[op])
+    # one spelling for the commutative cases that involve a numeric literal:  1 + x == x + 1,  x * 2 == 2 * x
+    # (`+` with a number on one side is numeric addition; `*` by a number commutes for arrays, numbers and sequences)
+    def _num(t):
+        return is_c(t) and isinstance(t[1], (int, float)) and not isinstance(t[1], bool)
+    if op == '+' and _num(a) and not _num(b):
+        return ('bin', '+', b, a)
+    if op == '*' and _num(b) and not _num(a):
+        return ('bin', '*', b, a)
     if op == '+' and (a[0] == 'tuple' or b[0] == 'tuple'):
         # tuple concatenation with literal tuples / slices of a shape:  (n,) + x.shape[1:]  ==  (n, *x.shape[1:])
         def parts(t):
